@@ -36,6 +36,7 @@ type Op struct {
 	K string // puttag | putdig | putchild | tagdel | mandel | head | getdig | list
 	T string `json:",omitempty"`
 	D int    `json:",omitempty"`
+	Ref bool `json:",omitempty"` // mandel: with the referrer check (WithManifestCheckReferrers)
 }
 type Case struct {
 	Kind   string  // ocidir | reg | conc
@@ -155,7 +156,11 @@ func doOp(ctx context.Context, rc *regclient.RegClient, base string, op Op) resu
 		return result{kind: "ok"}
 	case "mandel":
 		r, _ := ref.New(base + "@" + manDig[op.D])
-		if err := rc.ManifestDelete(ctx, r); err != nil {
+		var mo []regclient.ManifestOpts
+		if op.Ref {
+			mo = append(mo, regclient.WithManifestCheckReferrers())
+		}
+		if err := rc.ManifestDelete(ctx, r, mo...); err != nil {
 			return result{kind: "err"}
 		}
 		return result{kind: "ok"}
@@ -444,7 +449,7 @@ func genOps(r *lib.Rand, n int) []Op {
 		case k < 52:
 			ops = append(ops, Op{K: "tagdel", T: t})
 		case k < 62:
-			ops = append(ops, Op{K: "mandel", D: d})
+			ops = append(ops, Op{K: "mandel", D: d, Ref: r.Chance(40)})
 		case k < 80:
 			ops = append(ops, Op{K: "head", T: t})
 		case k < 88:
@@ -499,7 +504,7 @@ func genCase(r *lib.Rand) Case {
 
 func Run(o lib.Opts) {
 	res := lib.NewResult("C06", o.Tier, o.Seed)
-	res.Rule = "one splitmix64 stream: histories of 3-25 operations (push by tag / by digest / child, tag delete, manifest delete, head, get by digest, list) over 5 tags x 4 manifests (several tags share a manifest), closed by a listing and a head of every tag; 55% OCI layouts (45% of them start from a foreign index.json: duplicate, untagged and full-image-name entries, missing files) compared result by result with the Coq model and, when well formed, with a reference map; 37% registries with the tag-delete API on/off, page sizes 0-3 and pages with hidden-tag holes compared with the reference map and the raw registry state; 8% concurrent pushes of distinct tags through one client; non-trivial = history containing a delete; distinct by case"
+	res.Rule = "one splitmix64 stream: histories of 3-25 operations (push by tag / by digest / child, tag delete, manifest delete with (40%) and without the referrer check, head, get by digest, list) over 5 tags x 4 manifests (several tags share a manifest), closed by a listing and a head of every tag; 55% OCI layouts (45% of them start from a foreign index.json: duplicate, untagged and full-image-name entries, missing files) compared result by result with the Coq model and, when well formed, with a reference map; 37% registries with the tag-delete API on/off, page sizes 0-3 and pages with hidden-tag holes compared with the reference map and the raw registry state; 8% concurrent pushes of distinct tags through one client; non-trivial = history containing a delete; distinct by case"
 	dir := o.Out
 	if o.Replay != "" {
 		var f struct{ Case Case }
